@@ -256,6 +256,14 @@ pub fn run(prop: &str, seed: u64, n: usize, outdir: &str, _corpus: Option<&str>)
             let mut img2 = vec![];
             let c2 = d2.write(&mut img2).unwrap();
             flags.push(("rewrite_same_bytes".into(), (img2 == img && c2 == img.len()) as u8));
+            // a sink that runs out of room shortly before the end (1, 7, 100, 5000 bytes short): write must report the failure
+            {
+                let all_err = [1usize, 7, 100, 5000].iter().all(|k| {
+                    let room = img.len().saturating_sub(*k);
+                    std::panic::catch_unwind(std::panic::AssertUnwindSafe(|| d2.write(Limited { room }).is_err())).unwrap_or(false)
+                });
+                flags.push(("write_reports_a_sink_that_fails_near_the_end".into(), all_err as u8));
+            }
             // the image followed by a second image and a trailer in ONE stream: each read consumes exactly the bytes its
             // write reported and leaves what follows to the next reader
             {
